@@ -286,6 +286,56 @@ func refCmd(w *bufio.Writer, seed int64, n int) {
 		if mk(5e9, 7, U{4}, 9, []U{{1}, {2}, {3}, {3}}).Hash() == h0 {
 			hit("merkle-duplicate-last-leaf", "block hash of transactions [a,b,c] equals that of [a,b,c,c]")
 		}
+		// the same for every size of the transaction list, the empty one (an empty, non-nil list: what CreateBlock sets when the
+		// proposal has no transactions) included, with generated field values; the hash is a function of the content: two
+		// blocks built from the same values have the same hash
+		for k := 0; k <= 6; k++ {
+			for rep := 0; rep < 4; rep++ {
+				hs := make([]U, k)
+				for i := range hs {
+					rng.Read(hs[i][:])
+				}
+				ts, idx, nonce := uint64(1+rng.Intn(1e6))*1e9, uint32(rng.Intn(1<<20)), rng.Uint64()
+				var prev U
+				rng.Read(prev[:])
+				b := mk(ts, idx, prev, nonce, hs)
+				h := b.Hash()
+				checks++
+				if h == (U{}) {
+					hit("block-hash-zero", "a complete block with %d transactions has the zero hash", k)
+				}
+				if mk(ts, idx, prev, nonce, hs).Hash() != h {
+					hit("block-hash-not-a-function-of-content", "two blocks built from the same values (%d transactions) have different hashes", k)
+				}
+				prev2 := prev
+				prev2[3] ^= 0x40
+				for name, c := range map[string]dbft.Block[U]{
+					"timestamp": mk(ts+1e9, idx, prev, nonce, hs), "index": mk(ts, idx+1, prev, nonce, hs),
+					"previous-hash": mk(ts, idx, prev2, nonce, hs), "nonce": mk(ts, idx, prev, nonce^(1<<uint(rng.Intn(64))), hs),
+				} {
+					checks++
+					if c.Hash() == h {
+						hit("block-hash-ignores-"+name, "block hash unchanged after changing %s (%d transactions)", name, k)
+					}
+				}
+				if k >= 1 {
+					hs2 := append([]U{}, hs...)
+					hs2[rng.Intn(k)][7] ^= 1
+					checks++
+					if mk(ts, idx, prev, nonce, hs2).Hash() == h {
+						hit("block-hash-ignores-transaction-list", "block hash unchanged after changing one of %d transaction hashes", k)
+					}
+				}
+				if k >= 2 && hs[0] != hs[k-1] {
+					hs2 := append([]U{}, hs...)
+					hs2[0], hs2[k-1] = hs2[k-1], hs2[0]
+					checks++
+					if mk(ts, idx, prev, nonce, hs2).Hash() == h {
+						hit("block-hash-ignores-transaction-order", "block hash unchanged after swapping two of %d transaction hashes", k)
+					}
+				}
+			}
+		}
 		priv, pub := crypto.Generate(crand.Reader)
 		priv2, pub2 := crypto.Generate(crand.Reader)
 		_ = priv2
